@@ -58,10 +58,11 @@ def program(draw, nmax=8, kinds=('call', 'await', 'map', 'amap', 'wait'), immedi
         n = draw(st.integers(0, 3))
         xs = fresh(n)
         if k == 'map':
-            kind = draw(st.sampled_from(['list', 'tuple', 'range'] if immediate_only else ['list', 'range', 'gen', 'iter', 'gen']))
+            kind = draw(st.sampled_from(['list', 'tuple', 'range'] if immediate_only else
+                                        ['list', 'range', 'gen', 'iter', 'gen', 'reiter', 'iter-badclose']))
             fail_at = None
             delay = 0
-            if kind in ('gen', 'iter'):
+            if kind in ('gen', 'iter', 'reiter', 'iter-badclose'):
                 fail_at = draw(st.sampled_from([None, None] + list(range(n + 1))))
                 delay = draw(st.sampled_from([0, 0, U, T / 2]))
             return {'at': t, 'op': 'map', 'kind': kind, 'xs': xs, 'fail_at': fail_at, 'delay': delay}
@@ -195,7 +196,7 @@ def valid(case):
             if (o.get('gap', 0) if foreign else o['at']) < 0:
                 return False
             if o['op'] == 'map':
-                if o['kind'] not in ('list', 'tuple', 'range', 'gen', 'iter'):
+                if o['kind'] not in ('list', 'tuple', 'range', 'gen', 'iter', 'reiter', 'iter-badclose'):
                     return False
                 if o['kind'] == 'range' and o['xs'] and o['xs'] != list(range(o['xs'][0], o['xs'][0] + len(o['xs']))):
                     return False
